@@ -33,6 +33,26 @@ def check_pdu(p):
         eq(devs, f"dec.repack.{tag}", bytes(y.pack()), want)
         eq(devs, f"dec.packet_len.{tag}", y.packet_len, len(want))
     devs.extend(M.pdu_histories(p, want, wo, cls.unpack))
+    # documented defaults and convenience constructors agree with the explicit form
+    from spacepackets.cfdp import pdu as P0
+
+    if kind == "eof" and p["cc"] == 0 and p["fault"] is None:
+        eq(devs, "defaults.eof", bytes(P0.EofPdu(M.build_conf(p["conf"]), bytes.fromhex(p["checksum"]), p["size"]).pack()), want)
+    if kind == "nak" and not p["segs"]:
+        eq(devs, "defaults.nak_no_requests", bytes(P0.NakPdu(M.build_conf(p["conf"]), p["start"], p["end"]).pack()), want)
+        a_, b_ = P0.NakPdu(M.build_conf(p["conf"]), p["start"], p["end"]), P0.NakPdu(M.build_conf(p["conf"]), p["start"], p["end"])
+        a_.segment_requests = [(0, 1)]
+        eq(devs, "defaults.nak_second_object_unaffected", bytes(b_.pack()), want)
+    if kind == "metadata" and p["options"] is None:
+        params0 = P0.MetadataParams(bool(p["closure"]), P0.ChecksumType(p["cktype"]) if hasattr(P0, "ChecksumType") else __import__("spacepackets.cfdp.defs", fromlist=["x"]).ChecksumType(p["cktype"]), p["size"], p["src_name"], p["dst_name"])
+        eq(devs, "defaults.metadata_no_options", bytes(P0.MetadataPdu(M.build_conf(p["conf"]), params0).pack()), want)
+    if kind == "finished":
+        sp_ = P0.FinishedPdu.success_pdu(M.build_conf(p["conf"]))
+        q_ = {"kind": "finished", "conf": p["conf"], "cc": 0, "delivery": 0, "status": 2, "responses": [], "fault": None}
+        eq(devs, "defaults.finished_success_pdu", bytes(sp_.pack()), M.ref_pdu(q_))
+        sp2 = P0.FinishedPdu.success_pdu(M.build_conf(p["conf"]))
+        sp_.file_store_responses = [M.build_tlv(r) for r in p["responses"]] or [M.build_tlv({"t": "fsresp", "action": 0, "status": 0, "n1": "x", "n2": "", "msg": ""})]
+        eq(devs, "defaults.finished_success_pdu_second_object_unaffected", bytes(sp2.pack()), M.ref_pdu(q_))
     if kind == "ack":
         # an ACK rebuilt from what a decoder exposes (plain integers equal to the enum values) is the same ACK
         from spacepackets.cfdp import pdu as P
